@@ -213,6 +213,8 @@ func init() {
 		}()
 		_, _, _ = traversal.New(storemock.NewStorer()).GetChunkHashes(context.Background(), boson.NewAddress(rb), pyr)
 	}()
+	// the joiner's reader goroutines are not all waited for: give a late one the time to panic
+	time.Sleep(1500 * time.Millisecond)
 	os.Exit(0)
 }
 
